@@ -24,7 +24,7 @@ PROPS = {
                 assumptions=["ThreadSanitizer reports every data race between the executed calls (happens-before analysis; it does not depend on the actual interleaving)",
                              "deadlocks and lost wake-ups that need one specific interleaving are only reachable through the start jitter"]),
     "C18": dict(flavour="tsan", binary="vdrive_tsan", level="exploration", props_dir="props_tsan", hang_is_violation=True,
-                quick=dict(cases=2500, size=200, wall=900, case_budget=40, shards=8), thorough=dict(cases=150000, size=300, wall=3000, case_budget=60),
+                quick=dict(cases=2500, size=200, wall=900, case_budget=40, shards=8), thorough=dict(cases=150000, size=300, wall=3000, case_budget=400),
                 floors=dict(FAMS, **{"mode:load": 0.1, "budget<workers": 0.08, "budget<=loaded": 0.05, "tolerance-reached-early": 0.03, "latency:skewed": 0.5}),
                 assumptions=["ThreadSanitizer reports every data race between the executed threads (happens-before analysis)",
                              "worker schedules are perturbed by generated model latencies, not enumerated: a deadlock or lost wake-up that needs one specific interleaving can be missed"]),
@@ -213,6 +213,48 @@ META.update({
                      "sum_i w_i(x) phi(x_i) with w = getInterpolationWeights(x) must equal phi(x), and the weights must sum to one. clenshaw-curtis-zero is asserted on the span of its documented basis (DESIGN 2.9). Exploration.",
                 note=_TB + " Wavelet grids with a linear transform: evaluation points whose library-style inverse image rounds outside [-1,1] are excluded by construction (known finding *-wavelet-transformed-boundary, counted in the evidence). "
                                "Fourier interpolation weights within ~2e-7 of a node come from a guarded closed form and are compared with tolerance 1e-6 instead of 1e-9."),
+})
+
+
+# ---- C05 / C10 (derivatives, transforms)
+
+_ASSUME_0510 = ["sanitizers (ASan+UBSan) see every memory error on the executed paths",
+           "the harness maps (engine/props_c0510/maps.hpp: documented affine maps per rule family, Jacobi/Laguerre/Hermite quadrature factors, normalised truncated arcsin series with a bisection inverse) "
+           "and the member functions of the exact-space oracle (long double) are correct",
+           "tolerances are |a-b| <= tau * S with data-derived scales S (sum |w_i||v_i| of interpolation / differentiation weights, floored by max|v|); the largest error/tolerance ratio seen is recorded in the evidence"]
+
+PROPS.update({
+    # one C05 case = one grid history (<= 600 points) + twin, 3-6 points x (8 d + 3) evaluations
+    "C05": grid_prop(50000, 1500000, size=400, assumptions=_ASSUME_0510 + [
+        "finite differences are taken inside cells that contain no break point of any basis function (dyadic lattice of the finest node spacing; the 1025-point table of the cubic wavelets; triadic cell edges for order 0)"],
+        floors={"fam:localp": 0.2, "fam:wavelet": 0.08, "fam:fourier": 0.10, "fam:global": 0.08, "fam:sequence": 0.06,
+                "lp:o-1": 0.03, "lp:o0": 0.03, "lp:o1": 0.03, "lp:o2": 0.03, "lp:o3": 0.03, "lp:o4": 0.03, "lp:o5": 0.03, "wave:o1": 0.03, "wave:o3": 0.03,
+                "x:node": 0.3, "exact:affine": 0.2, "exact:monomials": 0.15, "exact:trig-modes": 0.1, "hist:refined": 0.2, "transform:spec": 0.15, "fd:compared": 0.9, "d:2": 0.15, "d:3": 0.15}),
+    # one C10 case = pair of grids (<= 200 points), all points compared, 3-6 interior points, nodes, boundary points, 4 probes beyond the bounds
+    "C10": grid_prop(50000, 1500000, size=400, assumptions=_ASSUME_0510,
+        floors={"dom:[-1,1]": 0.3, "dom:fourier[0,1]": 0.10, "dom:laguerre[0,inf)": 0.10, "dom:hermite(-inf,inf)": 0.10, "weight:jacobi-type": 0.06,
+                "mode:linear": 0.4, "mode:conformal": 0.08, "mode:conformal+linear": 0.08, "fam:localp": 0.06, "fam:sequence": 0.05, "fam:wavelet": 0.05, "fam:global": 0.3,
+                "ab:generated": 0.3, "ab:palette": 0.15, "ab:shift>=rate": 0.05, "x:boundary": 0.4, "d:2": 0.15, "d:3": 0.15}),
+})
+
+META.update({
+    "C05": dict(technique="property-based testing (rapidcheck, structure-aware byte decoder): exact-space oracle (analytic gradients of loaded members of the reproduced space), "
+                          "Richardson-extrapolated 4-th order central differences of evaluate(), metamorphic chain-rule relation between a canonical and a linearly transformed twin grid; ASan/UBSan",
+                text="Generated grids (all five families; Global incl. non-nested, unbounded and custom rules; local polynomials of orders -1,0..5 on all four rules; wavelets of order 1 and 3; d<=3, 1-3 outputs) "
+                     "are taken through short load/refine histories and paired with a twin that differs only by a linear domain transform. At generated points (strictly interior, inside a cell free of break points of the local bases; "
+                     "or exactly at interior grid nodes) differentiate() must (a) equal the analytic gradient when a member of the reproduced space is loaded (monomials of getGlobalPolynomialSpace(true), vanishing polynomials for "
+                     "clenshaw-curtis-zero, trigonometric modes of the Fourier frequency set, affine functions for wavelets and parent-complete boundary-including local polynomials of order != 0), (b) match Richardson central "
+                     "differences of evaluate() for generic data, the two step sizes having to agree first, and (c) satisfy differentiate_B(x) = differentiate_A(g(x)) g' between the twins. Exploration.",
+                note=_TB + " Conformal maps are never used (the API documents no derivative under them). Local polynomial grids whose hierarchy is not parent-complete are exempt from oracle (a) only."),
+    "C10": dict(technique="property-based testing (rapidcheck, structure-aware byte decoder): metamorphic pair canonical grid / transformed grid with identical values, "
+                          "independent long-double re-implementation of the documented maps, Jacobians, quadrature factors and of the truncated-arcsin conformal map with a bisection inverse; ASan/UBSan",
+                text="For generated specifications balanced over the canonical domains ([-1,1] rules of all families, Chebyshev/Gegenbauer/Jacobi weights, Gauss-Laguerre, Gauss-Hermite, Fourier) and generated transforms "
+                     "(a<b from a palette or continuous; shift and positive rate for the unbounded rules; asin truncations 0..6; conformal + linear in both call orders) a canonical grid A and a transformed grid B receive the same values. "
+                     "B's needed/loaded/all points must be the mapped points of A; evaluate_B(x) must equal evaluate_A(map^-1 x) at interior points, nodes (and the loaded values for interpolatory rules) and domain boundaries; "
+                     "differentiate scales by dt/dx; getHierarchicalSupport scales by the Jacobian; quadrature weights, integrate() and integrateHierarchicalFunctions() scale by the documented factor "
+                     "(((b-a)/2)^(alpha+beta+1), (b-a), b^-(1+alpha), b^-(1+alpha)/2; product of g'(t) for the conformal map); getDomainInside() accepts grid and interior points and rejects points beyond the bounds by relative margins 1e-9..10 "
+                     "(Hermite accepts everything, Laguerre rejects x<a only). Exploration.",
+                note=_TB + " Grid points that the forward map rounds one ulp beyond a bound are counted, not asserted, for getDomainInside (the statement allows rounding at the boundary itself)."),
 })
 
 
